@@ -47,3 +47,105 @@ Check eq_refl : eval_mod = fun e m => match eval e with Some n => Some (n mod m)
 Check eq_refl : mod_top = fun e m => if m <=? 0 then MUnmodelled else mod_model e m.
 Check eq_refl : (eval (NDiv (NInt 7) 2), eval (NDiv (NInt 8) 2), eval (NExp 2 (NInt (-1))), eval_floor (NDiv (NInt 7) 2))
               = (None, Some 4, None, Some 3).
+
+(* ---- int-operand fragment of the simplifier (Model/PyNumArithModel.v, Proofs/NumArith.v) ---- *)
+From BB Require Import PyNumArithModel NumArith.
+From Coq Require Import Znumtheory.
+Check C18_arith_sound : forall fuel op x r v,
+  arith true fuel op x = AVal r -> eval x = Some v -> op_pre op v -> eval r = Some (op_val op v).
+Check C18_add_int_sound : forall fuel n x r v,
+  arith true fuel (OAddI n) x = AVal r -> eval x = Some v -> eval r = Some (v + n).
+Check C18_radd_int_sound : forall fuel n x r v,
+  arith true fuel (ORadd n) x = AVal r -> eval x = Some v -> eval r = Some (n + v).
+Check C18_sub_int_sound : forall fuel n x r v,
+  arith true fuel (OSubI n) x = AVal r -> eval x = Some v -> eval r = Some (v - n).
+Check C18_rsub_int_sound : forall fuel n x r v,
+  arith true fuel (ORsub n) x = AVal r -> eval x = Some v -> eval r = Some (n - v).
+Check C18_neg_sound : forall fuel x r v,
+  arith true fuel ONeg x = AVal r -> eval x = Some v -> eval r = Some (- v).
+Check C18_mul_int_sound : forall fuel n x r v,
+  arith true fuel (OMulI n) x = AVal r -> eval x = Some v -> eval r = Some (v * n).
+Check C18_rmul_int_sound : forall fuel n x r v,
+  arith true fuel (ORmul n) x = AVal r -> eval x = Some v -> eval r = Some (n * v).
+Check C18_floordiv_int_sound : forall fuel n x r v,
+  arith true fuel (OFdiv n) x = AVal r -> eval x = Some v -> n <> 0 -> v mod n = 0 ->
+  eval r = Some (v / n).
+Check C18_pow_int_sound : forall fuel n x r v,
+  arith true fuel (OPow n) x = AVal r -> eval x = Some v -> 0 <= n -> eval r = Some (v ^ n).
+Check C18_make_exp_sound : forall fuel b x r v,
+  arith true fuel (OMkExp b) x = AVal r -> eval x = Some v -> 0 <= v -> eval r = Some (b ^ v).
+Check C18_gcd_sound : forall r l g v,
+  gcd_h true l r = AVal g -> eval r = Some v -> (g | l) /\ (g | v).
+Check C18_arith_chk_refines : forall fuel op x r,
+  arith true fuel op x = AVal r -> arith false fuel op x = AVal r.
+Check C18_arith_intexp_sound : forall fuel op x r v,
+  int_exps x = true -> (is_mkexp op = true -> is_int x = true) ->
+  arith false fuel op x = AVal r -> eval x = Some v -> op_pre op v ->
+  eval r = Some (op_val op v) /\ int_exps r = true.
+Check C18_floordiv_intexp_sound : forall fuel n x r v,
+  int_exps x = true -> arith false fuel (OFdiv n) x = AVal r -> eval x = Some v ->
+  n <> 0 -> v mod n = 0 -> eval r = Some (v / n).
+Check C18_arith_nodiv_sound : forall fuel op x r v,
+  not_fdiv op = true -> no_div x = true ->
+  arith false fuel op x = AVal r -> eval x = Some v -> op_pre op v ->
+  eval r = Some (op_val op v) /\ no_div r = true.
+Check C18_symbolic_exponent_refuted :
+  eval sym_witness = Some 24 /\ 24 mod 3 = 0 /\
+  arith_top false (OFdiv 3) sym_witness =
+    AVal (NMul (NAdd (NInt 1) (NMul (NInt 2) (NExp 6 (NAdd (NInt (-7)) (NExp 6 (NInt 1))))))
+               (NExp 6 (NAdd (NInt (-5)) (NExp 6 (NAdd (NInt (-5)) (NExp 6 (NInt 1))))))) /\
+  eval (NMul (NAdd (NInt 1) (NMul (NInt 2) (NExp 6 (NAdd (NInt (-7)) (NExp 6 (NInt 1))))))
+             (NExp 6 (NAdd (NInt (-5)) (NExp 6 (NAdd (NInt (-5)) (NExp 6 (NInt 1))))))) = None /\
+  arith_top true (OFdiv 3) sym_witness = AUnm /\
+  gcd_h false 3 (NAdd (NInt 3) (NExp 6 (NAdd (NInt (-6)) (NExp 6 (NInt 1))))) = AVal 3 /\
+  eval (NAdd (NInt 3) (NExp 6 (NAdd (NInt (-6)) (NExp 6 (NInt 1))))) = Some 4.
+Check C18_arith_false_symexp_unsound :
+  ~ (forall fuel n x r v, arith false fuel (OFdiv n) x = AVal r -> eval x = Some v ->
+       n <> 0 -> v mod n = 0 -> eval r = Some (v / n)).
+Check C18_gcd_prefix_unsound :
+  gcd_h_prefix 54 (NAdd (NInt (-6)) (NExp 3 (NInt 2))) = AVal 6 /\
+  eval (NAdd (NInt (-6)) (NExp 3 (NInt 2))) = Some 3 /\
+  gcd_h_prefix 54 (NExp 3 (NInt 2)) = AVal 27 /\ eval (NExp 3 (NInt 2)) = Some 9 /\
+  gcd_h false 54 (NAdd (NInt (-6)) (NExp 3 (NInt 2))) = AVal 3 /\
+  gcd_h false 54 (NExp 3 (NInt 2)) = AVal 9.
+Check C18_floordiv_prefix_refuted :
+  eval fdiv_witness = Some 162 /\ 162 mod 54 = 0 /\ 162 / 54 = 3 /\
+  arith_prefix_top (OFdiv 54) fdiv_witness = AVal (NInt 0) /\
+  arith_top false (OFdiv 54) fdiv_witness = AVal (NInt 3).
+Check C18_arith_prefix_fdiv_unsound :
+  ~ (forall fuel n x r v, arith_prefix fuel (OFdiv n) x = AVal r -> eval x = Some v ->
+       0 < n -> v mod n = 0 -> eval r = Some (v / n)).
+Check C18_floordiv_negative_prefix_refuted :
+  arith_prefix_top (OFdiv (-2)) (NExp 2 (NInt 3)) = AVal (NExp 2 (NInt 2)) /\
+  eval (NExp 2 (NInt 3)) = Some 8 /\ 8 mod (-2) = 0 /\ 8 / (-2) = -4 /\ eval (NExp 2 (NInt 2)) = Some 4 /\
+  arith_top false (OFdiv (-2)) (NExp 2 (NInt 3)) = AVal (NMul (NInt (-1)) (NExp 2 (NInt 2))).
+(* the definitions these statements rest on, pinned too *)
+Check eq_refl : op_pre = fun op v =>
+  match op with OFdiv n => n <> 0 /\ v mod n = 0 | OPow n => 0 <= n | OMkExp _ => 0 <= v | _ => True end.
+Check eq_refl : op_val = fun op v =>
+  match op with
+  | OAddI n => v + n | ORadd n => n + v | OSubI n => v - n | ORsub n => n - v | ONeg => - v
+  | OMulI n => v * n | ORmul n => n * v | OFdiv n => v / n | OPow n => v ^ n | OMkExp b => b ^ v
+  end.
+Check eq_refl : arith = fix arith (chk : bool) (fuel : nat) (op : aop) (x : nexpr) {struct fuel} : ares nexpr :=
+  match fuel with O => AUnm | S f => arith_step false chk (arith chk f) op x end.
+Check eq_refl : arith_prefix = fix arith_prefix (fuel : nat) (op : aop) (x : nexpr) {struct fuel} : ares nexpr :=
+  match fuel with O => AUnm | S f => arith_step true false (arith_prefix f) op x end.
+Check eq_refl : arith_top = fun chk op x => arith chk arith_fuel op x.
+Check eq_refl : arith_prefix_top = fun op x => arith_prefix arith_fuel op x.
+Check eq_refl : gcd_h = fun chk => gcd_gen false chk.
+Check eq_refl : gcd_h_prefix = gcd_gen true false.
+Check eq_refl : gcdc = fun pre chk n y => gcd_gen pre chk n y.
+Check eq_refl : gcd_exp_ret = fun chk e m g =>
+  match e with NInt _ => AVal g | _ => if chk && negb (exp_ge e m) then AUnm else AVal g end.
+Check eq_refl : exp_ge = fun e m => match eval e with Some k => m <=? k | None => false end.
+Check eq_refl : fdiv_witness =
+  NMul (NAdd (NInt (-6)) (NExp 3 (NInt 2))) (NMul (NInt 2) (NExp 3 (NInt 3))).
+Check eq_refl : sym_witness =
+  NMul (NAdd (NInt 3) (NExp 6 (NAdd (NInt (-6)) (NExp 6 (NInt 1)))))
+       (NExp 6 (NAdd (NInt (-5)) (NExp 6 (NAdd (NInt (-5)) (NExp 6 (NInt 1)))))).
+Check eq_refl : (no_div (NDiv (NInt 4) 2), no_div (NAdd (NInt 1) (NExp 2 (NInt 3))), not_fdiv (OFdiv 2), not_fdiv ONeg)
+              = (false, true, false, true).
+Check eq_refl : (int_exps (NExp 2 (NAdd (NInt 1) (NInt 2))), int_exps (NDiv (NAdd (NInt 1) (NExp 2 (NInt 3))) 2),
+                 is_mkexp (OMkExp 2), is_mkexp ONeg, is_int (NInt 3), is_int (NExp 2 (NInt 3)))
+              = (false, true, true, false, true, false).
